@@ -235,6 +235,9 @@ Proof. induction l as [|x l IH]; intros a; cbn [fold_right]; [lia|]. rewrite IH.
 Lemma tl_app_cons :forall (x : Z) t l, tl ((x :: t) ++ l) = tl (x :: t) ++ l.
 Proof. reflexivity. Qed.
 
+Lemma node_id_pos : forall g n, 0 < n -> node_id g n = is_node g n.
+Proof. intros g n H. unfold node_id. destruct (0 <? n) eqn:E; [reflexivity | lia]. Qed.
+
 Lemma visited_pos : forall V n, 0 < n -> (visited V n = true <-> In n V).
 Proof.
   intros V n Hn. unfold visited. rewrite Z.abs_eq by lia. apply existsb_eqb_In.
@@ -807,6 +810,87 @@ Section NoFuel.
       apply andb_true_intro. split; [lia | reflexivity].
     - unfold mu. cbn [length]. pose proof (wsum_bound []) as H. fold g. nia.
   Qed.
+
+  (* for ANY condition list (also distance-dependent ones) a non-empty internal result is a
+     directed path from the origin to the destination *)
+  Section AnyConds.
+    Variable o : Z.
+    Hypothesis Ho : node_id g o = true.
+
+    Lemma last_index_map : forall P,
+      last_index P = match rev (map fst (p_elems P)) with x :: _ => x | [] => 0 end.
+    Proof.
+      intros P. unfold last_index. rewrite <- map_rev.
+      destruct (rev (p_elems P)) as [|[i b] r]; reflexivity.
+    Qed.
+
+    Lemma is_path_last : forall w p, is_path g o w p -> exists l, p = l ++ [w].
+    Proof.
+      intros w p H. destruct H as [_ | u p e H He Hf].
+      - exists []. reflexivity.
+      - exists (p ++ [e]). rewrite <- app_assoc. reflexivity.
+    Qed.
+
+    Lemma is_path_node : forall w p, is_path g o w p -> node_id g w = true.
+    Proof.
+      intros w p H. destruct H as [H | u p e H He Hf]; [exact H | apply (ao_to_node g Hok e He)].
+    Qed.
+
+    Lemma extend_raw_shape : forall cur V' k e P, In P (extend_raw cur V' k e) ->
+      exists b1 b2, p_elems P = p_elems cur ++ [(e, b1); (edge_to g e, b2)].
+    Proof.
+      intros cur V' k e P H. unfold extend_raw in H.
+      destruct (negb (fst (path_cost rv d conds e k) =? 0) && negb (visited V' (edge_to g e)));
+        [|contradiction].
+      destruct (negb (fst (path_cost rv d conds (edge_to g e) k) =? 0)); [|contradiction].
+      destruct H as [H|[]]. subst P. cbn [p_elems]. eexists. eexists. reflexivity.
+    Qed.
+
+    Definition pinv (L : list path) : Prop :=
+      forall P, In P L -> is_path g o (last_index P) (map fst (p_elems P)).
+
+    Lemma path_loop_any_sound : forall f L V els, pinv L ->
+      path_loop rv d conds dst f L V = Some els -> els = [] \/ is_path g o dst (map fst els).
+    Proof.
+      induction f as [|f IHf]; intros L V els Hinv H; [discriminate H|].
+      rewrite path_loop_step_raw in H. destruct (pop L) as [[cur rest]|] eqn:Epop.
+      2:{ injection H as H. left. congruence. }
+      destruct (pop_some _ _ _ Epop) as [Hperm _].
+      assert (Hcur : In cur L) by (apply (Permutation_in _ (Permutation_sym Hperm)); left; reflexivity).
+      assert (Hrest : pinv rest).
+      { intros P HP. apply Hinv. apply (Permutation_in _ (Permutation_sym Hperm)). right. exact HP. }
+      pose proof (Hinv cur Hcur) as Hc. cbv zeta in H.
+      destruct (visited V (last_index cur)); [apply (IHf rest V els Hrest H)|].
+      destruct (last_index cur =? dst) eqn:Ed.
+      - injection H as H. subst els. right. assert (E : last_index cur = dst) by lia.
+        rewrite <- E. exact Hc.
+      - apply (IHf _ _ els) in H; [exact H|].
+        intros P HP. apply in_app_or in HP. destruct HP as [HP|HP]; [apply Hrest; exact HP|].
+        apply in_flat_map in HP. destruct HP as (e & He & HP).
+        pose proof (extend_raw_last _ _ _ _ _ HP) as El.
+        destruct (extend_raw_shape _ _ _ _ _ HP) as (b1 & b2 & Es).
+        apply (ao_out_spec g Hok _ e (is_path_node _ _ Hc)) in He. destruct He as [He Hf].
+        rewrite El, Es, map_app. cbn [map fst].
+        exact (path_snoc g o _ _ e Hc He Hf).
+    Qed.
+  End AnyConds.
+
+  Theorem path_search_any_sound : forall o r, 0 < o -> 0 < dst ->
+    path_search rv d conds o dst = Some r -> r <> [] ->
+    exists els, r = map fst (filter snd els) /\ is_path g o dst (map fst els).
+  Proof.
+    intros o r Hopos Hdpos H Hne. unfold path_search in H.
+    destruct (negb (o =? dst) && is_node (gr d) o && is_node (gr d) dst) eqn:E.
+    2:{ injection H as H. congruence. }
+    apply andb_prop in E. destruct E as [E _]. apply andb_prop in E. destruct E as [_ Ho].
+    rewrite <- node_id_pos in Ho by exact Hopos.
+    match type of H with match ?x with _ => _ end = _ => destruct x as [els|] eqn:El end; [|discriminate H].
+    injection H as H. exists els. split; [congruence|].
+    assert (Hinit : pinv o [ {| p_elems := [(o, snd (path_cost rv d conds o 0))]; p_cost := 0 |} ]).
+    { intros P [HP|[]]. subst P. apply path_origin. exact Ho. }
+    destruct (path_loop_any_sound o _ _ _ els Hinit El) as [E|Hp]; [|exact Hp].
+    subst els r. cbn in Hne. congruence.
+  Qed.
 End NoFuel.
 
 (* ====================================================================== *)
@@ -891,9 +975,6 @@ Proof.
   destruct H as [H|[H|H]]; [lia | congruence | congruence].
 Qed.
 
-Lemma node_id_pos : forall g n, 0 < n -> node_id g n = is_node g n.
-Proof. intros g n H. unfold node_id. destruct (0 <? n) eqn:E; [reflexivity | lia]. Qed.
-
 (* a non-empty result: the selected elements of a minimum-cost usable path *)
 Theorem path_search_sound : forall rv d conds o dst r,
   adj_ok (gr d) -> dist_free conds = true -> 0 < o -> 0 < dst ->
@@ -975,6 +1056,73 @@ Proof.
 Qed.
 
 (* ====================================================================== *)
+(* 7b. is_path read from the front: an executable checker                   *)
+(* ====================================================================== *)
+
+(* l = [e1; n1; ...; ek; nk] continues a walk standing at node u and ends at w *)
+Fixpoint walkb (g : graph) (u : Z) (l : list Z) (w : Z) : bool :=
+  match l with
+  | [] => u =? w
+  | e :: v :: r => edge_id g e && (edge_from g e =? u) && (edge_to g e =? v) && walkb g v r w
+  | _ => false
+  end.
+
+Definition is_pathb (g : graph) (o w : Z) (p : list Z) : bool :=
+  match p with
+  | [] => false
+  | x :: l => (x =? o) && node_id g o && walkb g o l w
+  end.
+
+Lemma walkb_snoc : forall g n l u x e, (length l <= n)%nat ->
+  walkb g u l x = true -> edge_id g e = true -> edge_from g e = x ->
+  walkb g u (l ++ [e; edge_to g e]) (edge_to g e) = true.
+Proof.
+  intros g n. induction n as [|n IH]; intros l u x e Hlen H He Hf.
+  - destruct l; [|cbn [length] in Hlen; lia]. cbn [walkb app] in *. rewrite He. lia.
+  - destruct l as [|e' [|v' r]]; [| discriminate H |].
+    + cbn [walkb app] in *. rewrite He. lia.
+    + cbn [walkb app] in *. apply andb_prop in H. destruct H as [H1 H2]. rewrite H1. cbn [andb].
+      apply (IH r v' x e); [cbn [length] in Hlen; lia | exact H2 | exact He | exact Hf].
+Qed.
+
+Lemma is_path_cons : forall g u e v w p, node_id g u = true -> edge_id g e = true ->
+  edge_from g e = u -> edge_to g e = v -> is_path g v w p -> is_path g u w (u :: e :: p).
+Proof.
+  intros g u e v w p Hu He Hf Ht H. induction H as [Hv | x p e' H IH He' Hf'].
+  - subst v. exact (path_snoc g u u [u] e (path_origin g u Hu) He Hf).
+  - exact (path_snoc g u x (u :: e :: p) e' IH He' Hf').
+Qed.
+
+Lemma walkb_is_path : forall g, adj_ok g -> forall n l u w, (length l <= n)%nat -> node_id g u = true ->
+  walkb g u l w = true -> is_path g u w (u :: l).
+Proof.
+  intros g Hok n. induction n as [|n IH]; intros l u w Hlen Hu H.
+  - destruct l; [|cbn [length] in Hlen; lia]. cbn [walkb] in H.
+    assert (E : u = w) by lia. subst w. apply path_origin. exact Hu.
+  - destruct l as [|e [|v r]]; [| discriminate H |].
+    + cbn [walkb] in H. assert (E : u = w) by lia. subst w. apply path_origin. exact Hu.
+    + cbn [walkb] in H. apply andb_prop in H. destruct H as [H H4].
+      apply andb_prop in H. destruct H as [H H3]. apply andb_prop in H. destruct H as [H1 H2].
+      assert (Hv : node_id g v = true).
+      { replace v with (edge_to g e) by lia. apply (ao_to_node g Hok e H1). }
+      apply (is_path_cons g u e v w (v :: r) Hu H1); [lia | lia |].
+      apply (IH r v w); [cbn [length] in Hlen; lia | exact Hv | exact H4].
+Qed.
+
+Theorem is_pathb_spec : forall g o w p, adj_ok g -> (is_pathb g o w p = true <-> is_path g o w p).
+Proof.
+  intros g o w p Hok. split.
+  - intros H. destruct p as [|x l]; [discriminate H|]. cbn [is_pathb] in H.
+    apply andb_prop in H. destruct H as [H H3]. apply andb_prop in H. destruct H as [H1 H2].
+    assert (E : x = o) by lia. subst x. apply (walkb_is_path g Hok (length l) l o w (le_n _) H2 H3).
+  - intros H. induction H as [Ho | u p e H IH He Hf].
+    + cbn [is_pathb walkb]. rewrite Ho. lia.
+    + destruct p as [|x l]; [discriminate IH|]. cbn [is_pathb app] in *.
+      apply andb_prop in IH. destruct IH as [IH H3]. rewrite IH. cbn [andb].
+      apply (walkb_snoc g (length l) l o u e (le_n _) H3 He Hf).
+Qed.
+
+(* ====================================================================== *)
 (* 8. non-vacuity                                                           *)
 (* ====================================================================== *)
 
@@ -1005,6 +1153,8 @@ Example ex_cost_vs_hops :
   adj_ok (gr db5) /\ dist_free conds5 = true /\
   path_search rv_fixed db5 [] 1 5 = Some [1; -6; 2; -7; 5] /\
   path_search rv_fixed db5 conds5 1 5 = Some [1; -8; 3; -9; 4; -10; 5] /\
+  is_pathb (gr db5) 1 5 [1; -6; 2; -7; 5] = true /\
+  is_pathb (gr db5) 1 5 [1; -8; 3; -9; 4; -10; 5] = true /\
   cost rv_fixed db5 conds5 [1; -6; 2; -7; 5] = 7 /\
   cost rv_fixed db5 conds5 [1; -8; 3; -9; 4; -10; 5] = 6.
 Proof. split; [exact graph5_adj_ok|]. vm_compute. repeat split. Qed.
@@ -1026,6 +1176,31 @@ Example ex_nothing_selected :
     Some [(1, false); (-5, false); (3, false)] /\
   path_search rv_fixed dbg cs 1 3 = Some [].
 Proof. vm_compute. repeat split. Qed.
+
+(* Why dist_free: with a distance condition the cost of an element depends on the path it is
+   reached by, and settling a node through its cheapest path can lose the only usable
+   continuation.  graph6: 1 -(-7)-> 2 -(-8)-> 3, 1 -(-9)-> 4 -(-10)-> 5 -(-11)-> 3, 3 -(-12)-> 6.
+   Conditions: distance < 7 (an element met at a larger "distance" stops the search) and
+   "not one of 2, -7, -8".  Node 3 is settled through the 3-hop path (cost 6 < 7); from there the
+   edge -12 gets distance 8 and is refused.  Through the 2-hop path every element of
+   1 -7 2 -8 3 -12 6 has a non-zero cost at the distance the search gives it (2 2 2 1 1 1),
+   yet the result is empty; without the id condition that very path is returned. *)
+Definition graph6 : graph :=
+  let g := ins_node (ins_node (ins_node (ins_node (ins_node (ins_node graph_new))))) in
+  ins_edge (ins_edge (ins_edge (ins_edge (ins_edge (ins_edge g 1 2) 2 3) 1 4) 4 5) 5 3) 3 6.
+Definition db6 : db := with_gr db_new graph6.
+Definition conds6 : list cond :=
+  [Cond LAnd MNone (CDistance (KLessThan 7)); Cond LAnd MNot (CIds [QId 2; QId (-7); QId (-8)])].
+
+Example ex_distance_dependent :
+  adj_ok (gr db6) /\ dist_free conds6 = false /\
+  path_search rv_fixed db6 conds6 1 6 = Some [] /\
+  is_pathb (gr db6) 1 6 [1; -7; 2; -8; 3; -12; 6] = true /\
+  map fst [path_cost rv_fixed db6 conds6 (-7) 2; path_cost rv_fixed db6 conds6 2 2;
+           path_cost rv_fixed db6 conds6 (-8) 4; path_cost rv_fixed db6 conds6 3 4;
+           path_cost rv_fixed db6 conds6 (-12) 6; path_cost rv_fixed db6 conds6 6 6] = [2; 2; 2; 1; 1; 1] /\
+  path_search rv_fixed db6 [Cond LAnd MNone (CDistance (KLessThan 7))] 1 6 = Some [1; -7; 2; -8; 3; -12; 6].
+Proof. split; [apply adj_okb_sound; vm_compute; reflexivity|]. vm_compute. repeat split. Qed.
 
 (* degenerate searches *)
 Example ex_degenerate :
